@@ -1,7 +1,7 @@
 """Assembly of all contract modules, per-property metadata."""
-from . import base, iface, c_output, c_input, c_time, c_integration
+from . import base, iface, c_output, c_input, c_time, c_integration, c_schedule
 
-MODULES = [c_output, c_input, c_time, c_integration]
+MODULES = [c_output, c_input, c_time, c_integration, c_schedule]
 
 LEVEL = {}          # property -> evidence level (default "proof")
 EXPLAIN = {}        # property -> what the run covers
